@@ -46,7 +46,7 @@ RULE = ("sequences of 2-12 create / create -sf runs (real clock: several runs pe
 # the manifests of every generation must be found again (numbering continues, nothing is overwritten)
 CORPUS = [{"root_name": rn, "tree": {"a.txt": {"f": "4141"}, "b": {"d": {"c.bin": {"f": "42"}}}},
            "steps": [{"op": "create", "fmts": ["md5"]}, {"op": "create", "fmts": ["md5"]}, {"op": "add", "path": "n.txt", "data": "4e"},
-                     {"op": "create", "fmts": ["xxh64"]}, {"op": "verify"}] + ([] if "\n" in rn else [{"op": "info"}])}
-          for rn in ("two\nlines", "A001.RDM 2 _0007_", "0001_x", 'Day 1: "Scene" 4?', "cam<1>|B*", "back\\slash & co")]
+                     {"op": "create", "fmts": ["xxh64"]}, {"op": "verify"}] + ([] if any(c in rn for c in "\n\u2028\u2029\u0085") else [{"op": "info"}])}
+          for rn in ("two\nlines", "A001.RDM 2 _0007_", "0001_x", 'Day 1: "Scene" 4?', "cam<1>|B*", "back\\slash & co", "a\u2028b", "x\u0085y \u2029z")]
 check, replay = make("C06", oracles.oracle_c06, scenario, 40, 800, RULE, snap=True, corpus=CORPUS,
                      nontrivial=lambda scn, obs: sum(1 for s in scn["steps"] if s["op"] == "create") >= 3)
